@@ -34,6 +34,8 @@ def gen_pair(tier, thin_only=False, max_cells=None, weights=False, solvers=("dir
         o["aa_depth"] = draw(st.sampled_from(list(aa)))
         o["aa_restart"] = draw(st.sampled_from([None, 5])) if o["aa_depth"] else None
         o["num_iter"] = draw(st.integers(3, 40 if tier == "quick" else 120))
+        if draw(st.integers(0, 6)) == 0:
+            o["num_iter"] = draw(st.integers(0, 2))  # only the initial Darcy flux, or one / two steps
         o["tol"] = draw(st.sampled_from([None, 1e-8, 1e-8]))
         if o["formulation"] == "flux_reduced" and o["linear_solver"] in ("amg", "cg"):
             # known finding C08-flux-reduced-iterative (wrong linear solves): excluded by construction
@@ -42,6 +44,8 @@ def gen_pair(tier, thin_only=False, max_cells=None, weights=False, solvers=("dir
         case = {"grid": g, "mass": draw(wass.mass_specs()), "opt": o}
         if weights:
             case["cweight"] = draw(st.sampled_from([0.5, 2.0, 4.0, 3.0]))
+        if weights == "optional":
+            case["cweight"] = draw(st.sampled_from([None, None, 0.5, 2.0, 3.0]))
         # moderate factors and far-away powers of two (tiny / huge total mass); the problem data with
         # flux units (mobility cut-off, Bregman penalty L) are scaled along by the check
         lams = [2.0**-36, 2.0, 2.0**-48, 0.5, 3.0, 2.0**-24, 0.3, 2.0**-12, 2.0**20]
@@ -237,7 +241,7 @@ def check_first_moment(case):
 # ---------------------------------------------------------------------------------------
 
 SMALL = [[2, 2], [2, 3], [3, 2], [2, 4], [4, 2], [3, 3], [2, 2, 2], [2, 5], [1, 2, 3], [2, 1, 3], [2, 2, 1],
-         [3, 1, 3], [2, 3, 1]]
+         [3, 1, 3], [2, 3, 1], [3, 4], [4, 3], [2, 7], [7, 2], [3, 3], [2, 5], [5, 2]]
 
 
 class FastCost:
@@ -420,7 +424,13 @@ def check_unique_flux(case):
 # ---------------------------------------------------------------------------------------
 
 
+def _same_float(x, y):
+    return x == y or (np.isnan(x) and np.isnan(y))
+
+
 def check_frontend(case):
+    """wasserstein_distance(m1, m2, method, weight, options=...) is pure dispatch: it returns exactly what
+    the back-end class it selects returns - for every return form - on the grid of the images."""
     grid, o = case["grid"], case["opt"]
     a, b = wass.make_masses(grid["shape"], case["mass"])
     tags = _tags(case)
@@ -430,42 +440,149 @@ def check_frontend(case):
     opts = wass.make_options(o)
     opts["return_info"] = False
     method = "newton" if o["method"] == "newton" else "bregman"
+    cls = darsia.WassersteinDistanceNewton if method == "newton" else darsia.WassersteinDistanceBregman
+    labels = ["weighted" if c else "unweighted"]
+    # the back-end first, observed: a failure of the front-end counts as the degenerate-mobility finding
+    # only if the back-end fails in the same way on the same problem
+    back_exc = None
     with warnings.catch_warnings():
         warnings.simplefilter("ignore")
         np.seterr(all="ignore")
         try:
-            front = darsia.wasserstein_distance(i1, i2, method, weight=wimg, options=dict(opts))
-            cls = darsia.WassersteinDistanceNewton if method == "newton" else darsia.WassersteinDistanceBregman
             w1 = cls(darsia.generate_grid(i1), wimg, dict(opts))
+            cap = wass.capture_solve(w1)
             wass.watch_mobility(w1, tags)
             back = w1(i1, i2)
+            w1.options["return_status"] = True
+            back_status = w1(i1, i2)
         except Exception as e:  # noqa
-            e.vf_tags = dict(tags, degenerate_mobility=True)  # cannot observe the front-end's object
+            back_exc = e
+        try:
+            front = darsia.wasserstein_distance(i1, i2, method, weight=wimg, options=dict(opts))
+            front_status = darsia.wasserstein_distance(i1, i2, method, weight=wimg,
+                                                       options=dict(opts, return_status=True))
+        except Exception as e:  # noqa
+            if back_exc is not None and type(e) is type(back_exc):
+                back_exc.vf_tags = dict(tags)
+                raise back_exc
+            e.vf_tags = dict(tags, degenerate_mobility=False)
             raise
-    if not (front == back or (np.isnan(front) and np.isnan(back))):
+    if back_exc is not None:
+        raise Violation("frontend-masks-failure", f"the back-end raises {type(back_exc).__name__} but the front-end "
+                        f"returns {front!r}", tags)
+    if not _same_float(front, back):
         raise Violation("frontend", f"wasserstein_distance(...) = {front!r} but the back-end returns {back!r}", tags)
-    # METHOD NAMES are case-insensitive
+    if not (isinstance(front_status, tuple) and len(front_status) == 2 and isinstance(back_status, tuple)
+            and _same_float(front_status[0], back_status[0]) and bool(front_status[1]) == bool(back_status[1])):
+        raise Violation("frontend-status", f"return_status form: front-end {front_status!r}, back-end {back_status!r}",
+                        tags)
+    # the grid the front-end builds is the grid of the images: on one-cell-thin grids the value is the cost of
+    # the unique mass-conserving flux (independent of generate_grid, which is on both sides above)
+    big = [s_ for s_ in grid["shape"] if s_ >= 2]
+    if len(big) == 1 and c is None and np.isfinite(front) and not tags.get("degenerate_mobility") and \
+            o["linear_solver"] == "direct" and o["num_iter"] >= 1 and not o["aa_depth"]:
+        ref = RefGrid(grid["shape"], grid["vox"])
+        want, _ = wass.ref_cost(ref, _unique_flux(ref, a, b), o["l1_mode"])
+        if abs(front - want) > 1e-9 * (max(abs(want), 1e-12) + cap["linmax"] * ref.vol * ref.num_cells):
+            raise Violation("frontend-grid", f"front-end {front!r}, cost of the unique flux on the image's grid "
+                            f"{want!r}", tags)
+        labels.append("thin-independent")
+    # method names in other capitalisation: either rejected as unknown or dispatched like the lower-case name
     with warnings.catch_warnings():
         warnings.simplefilter("ignore")
         try:
-            up = darsia.wasserstein_distance(i1, i2, method.upper(), weight=wimg, options=dict(opts))
+            up = darsia.wasserstein_distance(i1, i2, method.capitalize(), weight=wimg, options=dict(opts))
+        except NotImplementedError:
+            up = None
         except Exception as e:  # noqa
-            e.vf_tags = dict(tags, degenerate_mobility=True)
+            e.vf_tags = dict(tags)
             raise
-    if not (up == front or (np.isnan(up) and np.isnan(front))):
-        raise Violation("frontend-case", "method name is case sensitive", tags)
+    if up is not None and not _same_float(up, front):
+        raise Violation("frontend-case", f"method {method.capitalize()!r} is accepted but returns {up!r}, "
+                        f"{method!r} returns {front!r}", tags)
     if len(grid["shape"]) == 2 and c is None and int(np.prod(grid["shape"])) <= 64:
         e1 = darsia.wasserstein_distance(i1, i2, "cv2.emd")
         e2 = darsia.EMD()(i1, i2)
         if e1 != e2:
             raise Violation("frontend-emd", f"{e1!r} vs {e2!r}", tags)
+        e3 = darsia.wasserstein_distance(i1, i2, "cv2.emd", preprocess=_doubled_copy)
+        e4 = darsia.EMD(_doubled_copy)(i1, i2)
+        if e3 != e4 or abs(e3 - 2 * e1) > 1e-5 * max(abs(e1), 1e-300):
+            raise Violation("frontend-emd-preprocess", f"with a preprocess that doubles the mass: front-end {e3!r}, "
+                            f"EMD {e4!r}, without preprocess {e1!r}", tags)
+        labels.append("emd-branch")
     try:
         darsia.wasserstein_distance(i1, i2, "sinkhorn")
     except NotImplementedError:
         pass
     else:
         raise Violation("frontend-unknown", "unknown method accepted", tags)
-    return Outcome(True, _key(case, (c,)), _labels(case, ("weighted" if c else "unweighted",)))
+    return Outcome(True, _key(case, (c,)), _labels(case, labels))
+
+
+def _doubled_copy(img):
+    out = img.copy()
+    out.img = out.img * 2
+    return out
+
+
+# ---------------------------------------------------------------------------------------
+# 7b storage type of the images
+# ---------------------------------------------------------------------------------------
+
+
+def gen_dtype(tier):
+    @st.composite
+    def strat(draw):
+        case = draw(gen_pair(tier, weights="optional", aa=(0,)))
+        case["dtype"] = draw(st.sampled_from(["uint8", "uint16", "int32", "int64", "float32"]))
+        case["frontend"] = draw(st.booleans())
+        return case
+
+    return strat()
+
+
+def check_dtype(case):
+    """The distance is a function of the distributions, not of the type they are stored in: images whose
+    pixel data are held exactly in an integer or single-precision type (photographs) give the distance
+    of the same values held as float64 - in both directions (an unsigned difference must not wrap)."""
+    grid, o = case["grid"], case["opt"]
+    a, b = wass.make_masses(grid["shape"], case["mass"])
+    tags = dict(_tags(case), dtype=case["dtype"])
+    dt = wass.storage_dtype(a, b, case["dtype"])
+    if dt == np.dtype(float):
+        return Outcome(False, _key(case), _labels(case, ("not-representable",)), status="skipped")
+    c = case.get("cweight")
+    wimg = wass.make_weight(grid, {"kind": "const", "value": c}) if c is not None else None
+    opts = wass.make_options(o)
+    opts["return_info"] = False
+    method = "newton" if o["method"] == "newton" else "bregman"
+    cls = darsia.WassersteinDistanceNewton if method == "newton" else darsia.WassersteinDistanceBregman
+
+    def dist(x, y, dtype):
+        i1, i2 = wass.make_images(grid, x, y, dtype)
+        if case["frontend"]:
+            return float(darsia.wasserstein_distance(i1, i2, method, weight=wimg, options=dict(opts)))
+        w1 = cls(darsia.generate_grid(i1), wimg, dict(opts))
+        wass.watch_mobility(w1, tags)
+        return float(w1(i1, i2))
+
+    with warnings.catch_warnings():
+        warnings.simplefilter("ignore")
+        np.seterr(all="ignore")
+        try:
+            ref_ab, ref_ba = dist(a, b, None), dist(b, a, None)
+            got_ab, got_ba = dist(a, b, case["dtype"]), dist(b, a, case["dtype"])
+        except Exception as e:  # noqa
+            e.vf_tags = tags
+            raise
+    for name, got, want in (("d(a,b)", got_ab, ref_ab), ("d(b,a)", got_ba, ref_ba)):
+        if not (_same_float(got, want) or abs(got - want) <= 1e-12 * abs(want)):
+            raise Violation(f"dtype:{'unsigned' if case['dtype'].startswith('u') else case['dtype']}",
+                            f"{name} of {case['dtype']} images = {got!r}, of the same values as float64 = {want!r} "
+                            f"({method}{', front-end' if case['frontend'] else ''})", tags)
+    return Outcome(_nontrivial(case, a, b), _key(case, (case["dtype"],)),
+                   _labels(case, ("dtype-" + case["dtype"], "frontend" if case["frontend"] else "class")))
 
 
 # ---------------------------------------------------------------------------------------
@@ -485,7 +602,8 @@ def gen_emd(tier):
             vox = vox[::-1]
         return {"shape": shape, "vox": vox, "vk": vk,
                 "kind": draw(st.sampled_from(["single", "dense", "sparse", "series"])),
-                "pseed": draw(st.integers(0, 2**20)), "lam": draw(st.sampled_from([2.0, 0.5, 3.0, 10.0])),
+                "pseed": draw(st.integers(0, 2**20)),
+                "lam": draw(st.sampled_from([2.0, 0.5, 3.0, 10.0, 0.3 * 2.0**-60, 2.0**-40, 2.0**40, 3 * 2.0**70])),
                 "nt": draw(st.integers(2, 3))}
 
     return strat()
@@ -542,11 +660,17 @@ def check_emd(case):
     d0 = emd(i1, i1)
     if abs(d0) > tol:
         raise Violation("emd-identity", f"EMD(a,a) = {d0!r}", t)
+    # the pairwise table of a list of images is the table of the pairwise distances
+    M = np.asarray(emd.distance_matrix([i1, i2, j1]) if lam * a.sum() == a.sum() else emd.distance_matrix([i1, i2, i1]))
+    if M.shape != (3, 3) or abs(M[0, 1] - d) > tol or abs(M[1, 0] - d) > tol or np.any(np.diag(M) != 0) or \
+            abs(M[0, 2]) > tol or abs(M[1, 2] - d) > tol:
+        raise Violation("emd-distance-matrix", f"distance_matrix([a, b, a]) = {M.tolist()}, EMD(a, b) = {d!r}", t)
     # never above the cost of any transport plan, e.g. moving everything via the barycentre: crude
     # upper bound mass x diameter
     if d > mass * diam + tol:
         raise Violation("emd-upper", f"EMD {d!r} above mass x diameter {mass * diam!r}", t)
-    return Outcome(len(set(vox)) > 1 or case["kind"] != "single", case, (case["kind"], case["vk"]))
+    return Outcome(len(set(vox)) > 1 or case["kind"] != "single", case,
+                   (case["kind"], case["vk"], "scale-far" if not 2.0**-10 < lam < 2.0**10 else "scale-moderate"))
 
 
 _RULE = ("Hypothesis draws grids (1-3-D, anisotropic voxels), equal-mass integer-valued pairs, method / L1 / "
@@ -572,7 +696,7 @@ PROP = Prop(
     subs=[
         Sub("identity", check_identity, gen=lambda t: gen_pair(t), n={"quick": 60, "thorough": 1500},
             shards={"quick": 2, "thorough": 8}),
-        Sub("symmetry", check_symmetry, gen=lambda t: gen_pair(t, solvers=("direct", "amg", "cg")),
+        Sub("symmetry", check_symmetry, gen=lambda t: gen_pair(t, solvers=("direct", "amg", "cg"), aa=(0, 0, 0, 2)),
             n={"quick": 90, "thorough": 2500}, shards={"quick": 3, "thorough": 16}),
         Sub("scaling", check_scaling, gen=lambda t: gen_pair(t, weights=True, aa=(0,)),
             n={"quick": 90, "thorough": 2500}, shards={"quick": 3, "thorough": 16}),
@@ -583,8 +707,10 @@ PROP = Prop(
         Sub("unique_flux_cost", check_unique_flux,
             gen=lambda t: gen_pair(t, thin_only=True, solvers=("direct", "amg", "cg")),
             n={"quick": 200, "thorough": 5000}, shards={"quick": 4, "thorough": 16}),
-        Sub("frontend_dispatch", check_frontend, gen=lambda t: gen_pair(t, weights=True),
+        Sub("frontend_dispatch", check_frontend, gen=lambda t: gen_pair(t, weights="optional"),
             n={"quick": 60, "thorough": 1500}, shards={"quick": 2, "thorough": 8}),
+        Sub("storage_type_invariance", check_dtype, gen=gen_dtype, n={"quick": 60, "thorough": 1500},
+            shards={"quick": 3, "thorough": 16}),
         Sub("emd", check_emd, gen=gen_emd, n={"quick": 300, "thorough": 10000},
             shards={"quick": 3, "thorough": 16}),
     ],
